@@ -639,11 +639,22 @@ def rvOfM : JMs → RMs'
   | .cons k v t => .cons k (rvOf v) (rvOfM t)
 end
 
-/-- what a reviver call does: its result (`none` = undefined) and, possibly, `delete this[del]` of
-    another (non-index) property of its holder while it runs -/
+/-- what a reviver does to its holder (`this`) while it runs.  Key effects apply to an object holder,
+    length / index effects to an array holder; on the other kind they do nothing observable. -/
+inductive HEff where
+  | none
+  | delKey (k : Str)              -- delete this[k]
+  | setKey (k : Str) (v : RV)     -- this[k] = v   (a new key is appended)
+  | setLen (n : Nat)              -- this.length = n
+  | push (v : RV)                 -- this.push(v)
+  | pop                           -- this.pop()
+  | delIdx (i : Nat)              -- delete this[i]   (a hole; the length stays)
+  | setIdx (i : Nat) (v : RV)     -- this[i] = v      (extends the array when i >= length)
+
+/-- what a reviver call does: its result (`none` = undefined) and its effect on the holder -/
 structure RRes where
   val : Option RV
-  del : Option Str
+  eff : HEff
 
 /-- a reviver: (key, value) ↦ effect -/
 abbrev Reviver := Str → RV → RRes
@@ -661,27 +672,73 @@ def RMs'.keys : RMs' → List Str
   | .nil => []
   | .cons k _ t => k :: RMs'.keys t
 
+/-! arrays as element lists: `undef` is a hole (or an undefined element: both read as undefined) -/
+def RVs.len : RVs → Nat
+  | .nil => 0
+  | .cons _ t => 1 + RVs.len t
+def RVs.getI : Nat → RVs → RV
+  | _, .nil => .undef
+  | 0, .cons v _ => v
+  | i + 1, .cons _ t => RVs.getI i t
+/-- the first n elements, padded with holes -/
+def RVs.resize : Nat → RVs → RVs
+  | 0, _ => .nil
+  | n + 1, .nil => .cons .undef (RVs.resize n .nil)
+  | n + 1, .cons v t => .cons v (RVs.resize n t)
+/-- element i := v; an index at or beyond the length extends the array (ES5 15.4.5.1) -/
+def RVs.setI : Nat → RV → RVs → RVs
+  | 0, v, .nil => .cons v .nil
+  | 0, v, .cons _ t => .cons v t
+  | i + 1, v, .nil => .cons .undef (RVs.setI i v .nil)
+  | i + 1, v, .cons w t => .cons w (RVs.setI i v t)
+/-- delete this[i]: a hole when the index exists, nothing otherwise -/
+def RVs.delI : Nat → RVs → RVs
+  | _, .nil => .nil
+  | 0, .cons _ t => .cons .undef t
+  | i + 1, .cons w t => .cons w (RVs.delI i t)
+
+def HEff.onObj : HEff → RMs' → RMs'
+  | .delKey k, m => RMs'.del k m
+  | .setKey k v, m => RMs'.set k v m
+  | _, m => m
+
+def HEff.onArr : HEff → RVs → RVs
+  | .setLen n, l => RVs.resize n l
+  | .push v, l => RVs.setI (RVs.len l) v l
+  | .pop, l => RVs.resize (RVs.len l - 1) l
+  | .delIdx i, l => RVs.delI i l
+  | .setIdx i v, l => RVs.setI i v l
+  | _, l => l
+
 mutual
-/-- builtinJSONReviveWalk(holder, name) with `value = holder.get(name)` passed in; returns what the
-    reviver call did and the keys of the reviver calls in call order.  (Fuel: every call consumes one.) -/
-def reviveM (f : Reviver) : Nat → Str → RV → RRes × List Str
-  | 0, _, _ => (⟨none, none⟩, [])
-  | fuel + 1, name, .arr l =>
-    let r := reviveArrM f fuel 0 l
-    (f name (.arr r.1), r.2 ++ [name])
-  | fuel + 1, name, .obj m =>
+/-- builtinJSONReviveWalk(holder, name) with `value = holder.get(name)` passed in; `hk` = the kind of
+    the holder (65 'A' array, 79 'O' object).  Returns what the reviver call did and the (holder kind,
+    key) of the reviver calls in call order.  (Fuel: every call consumes one.) -/
+def reviveM (f : Reviver) : Nat → Nat → Str → RV → RRes × List Str
+  | 0, _, _, _ => (⟨none, .none⟩, [])
+  | fuel + 1, hk, name, .arr l =>
+    let r := reviveArrM f fuel 0 (RVs.len l) l
+    (f name (.arr r.1), r.2 ++ [hk :: name])
+  | fuel + 1, hk, name, .obj m =>
     let r := reviveObjM f fuel (RMs'.keys m) m
-    (f name (.obj r.1), r.2 ++ [name])
-  | _ + 1, name, v => (f name v, [name])
-/-- indices 0..length-1; undefined deletes the element (a hole), else it is redefined.  (A `delete` of
-    a non-index name by the reviver does nothing to an array.) -/
-def reviveArrM (f : Reviver) : Nat → Nat → RVs → RVs × List Str
-  | 0, _, _ => (.nil, [])
-  | _ + 1, _, .nil => (.nil, [])
-  | fuel + 1, i, .cons v t =>
-    let r := reviveM f fuel (decimalNat i) v
-    let rest := reviveArrM f fuel (i + 1) t
-    (.cons (match r.1.val with | some x => x | none => .undef) rest.1, r.2 ++ rest.2)
+    (f name (.obj r.1), r.2 ++ [hk :: name])
+  | _ + 1, hk, name, v => (f name v, [hk :: name])
+/-- the array branch: `length := objectLength(obj)` is read ONCE, then index = 0 .. length-1:
+    builtinJSONReviveWalk(obj, index) — `obj.get(index)` is undefined for a hole or beyond the current
+    length — and undefined deletes the element, anything else defines it (which extends an array that
+    the reviver has shortened meanwhile) -/
+def reviveArrM (f : Reviver) : Nat → Nat → Nat → RVs → RVs × List Str
+  | 0, _, _, cur => (cur, [])
+  | fuel + 1, i, len, cur =>
+    if i < len then
+      let r := reviveM f fuel 65 (decimalNat i) (RVs.getI i cur)
+      let cur1 := r.1.eff.onArr cur
+      let cur2 := match r.1.val with
+        | none => RVs.delI i cur1
+        | some x => RVs.setI i x cur1
+      let rest := reviveArrM f fuel (i + 1) len cur2
+      (rest.1, r.2 ++ rest.2)
+    else (cur, [])
 /-- the names are collected first (`obj.enumerate` into a slice); then for each name
     builtinJSONReviveWalk(obj, name) — `obj.get(name)` is undefined when the property is gone
     meanwhile — and undefined deletes the property, anything else (re)defines it -/
@@ -692,10 +749,8 @@ def reviveObjM (f : Reviver) : Nat → List Str → RMs' → RMs' × List Str
     let v0 := match RMs'.get name cur with
       | some v => v
       | none => .undef
-    let r := reviveM f fuel name v0
-    let cur1 := match r.1.del with
-      | some d => RMs'.del d cur
-      | none => cur
+    let r := reviveM f fuel 79 name v0
+    let cur1 := r.1.eff.onObj cur
     match r.1.val with
     | none =>
       let rest := reviveObjM f fuel names (RMs'.del name cur1)
@@ -708,7 +763,7 @@ end
 /-- JSON.parse(text, reviver) for the parsed value `v` whose object properties are in the order
     given (l.34-38: wrapper object with the empty key) -/
 def reviveTop (f : Reviver) (fuel : Nat) (v : RV) : Option RV × List Str :=
-  let r := reviveM f fuel [] v
+  let r := reviveM f fuel 79 [] v
   (r.1.val, r.2)
 
 /-! ### Go's encoder -/
